@@ -7,8 +7,12 @@ WT="$(mktemp -d /tmp/seedwt.XXXXXX)"
 rmdir "$WT"
 git -C /repo worktree add -f --detach "$WT" HEAD >/dev/null 2>&1 || { echo "worktree failed"; exit 9; }
 if ! git -C "$WT" apply "$PATCH"; then echo "patch does not apply"; git -C /repo worktree remove --force "$WT"; exit 9; fi
-cd "$(dirname "$0")/.." && VERIF_REPO="$WT" VERIF_COQCHK=0 ./check "$PID" --tier "$TIER"
+cd "$(dirname "$0")/.."
+# private copy of the Coq tree and work dir, so regenerated Gen.v files and rebuilt .vo never touch /verif/coq
+cp -r coq "$WT.coq"
+VERIF_REPO="$WT" VERIF_COQ="$WT.coq" VERIF_WORK="$WT.work" VERIF_COQCHK=0 ./check "$PID" --tier "$TIER"
 rc=$?
+rm -rf "$WT.coq" "$WT.work"
 git -C /repo worktree remove --force "$WT" >/dev/null 2>&1
 rm -rf "$WT"
 exit $rc
